@@ -56,14 +56,25 @@ def _apply_fns(name, est):
     return {"transform": est.transform}
 
 
+KEEP_LABELS = [False]
+
+
 def _sub(df, idx):
-    return df.iloc[list(idx)].reset_index(drop=True)
+    """the selected instances; in half of the cases they keep the row labels they had in the full panel (a permuted / partial row index),
+    unless an instance is selected twice"""
+    out = df.iloc[list(idx)]
+    if KEEP_LABELS[0] and len(set(idx)) == len(list(idx)):
+        return out
+    return out.reset_index(drop=True)
 
 
 def run_case(case, ctx):
     import warnings
     warnings.simplefilter("ignore")
     name = case["est"]
+    KEEP_LABELS[0] = case["dseed"] % 2 == 1
+    if KEEP_LABELS[0]:
+        ctx.tag("selections-keep-their-row-labels")
     rng = np.random.default_rng([case["dseed"], 1616])
     ni, nc, nt = case["ni"], case["nc"], case["nt"]
     pos = name in ("row_log",)
